@@ -301,6 +301,7 @@ class CustomState(BaseState):
         if self.index is not None:
             assert isinstance(self.composite_envelope, CompositeEnvelope)
             self.composite_envelope.apply_kraus(operators, self)
+            return
 
         while self.expansion_level != ExpansionLevel.Matrix:
             self.expand()
